@@ -54,6 +54,9 @@ namespace drv {
       if (&h.exception().name() != &n || &h.exception().type() != &t) bad |= 32u;
       return bad;
    }
+   // a catch-all handler: the exception type is the built-in `...` type (a library constant, not a foreign node)
+   unsigned r_handler_ellipsis(L& lx, const Name& n) { return r_handler(lx, n, lx.ellipsis_type()); }
+   unsigned r_handler_builtin(L& lx, const Name& n) { return r_handler(lx, n, lx.int_type()); }
    template<class M> inline unsigned parameters_clauses(M* m, impl::Parameter_list& inputs, const ipr::Expr& owner, bool owned, const ipr::Region& parent, Mapping_level lv, const Name& n0, const Type& t0, const Name& n1, const Type& t1)
    {
       unsigned bad = 0; const ipr::Parameter_list& pl = m->parameters(); const ipr::Region& r = pl.region();
